@@ -92,6 +92,33 @@ let handle line =
       (List.length k.k_plats) (String.concat " " (List.map cl_hex k.k_plats))
   | "G" -> let r = next_raw st in
     b2s (wf_raw r) ^ " " ^ String.concat " " (List.map print_tag (sys_tags r))
+  | "F" -> let fn = next_str st in
+    (match wheel_fields_of fn with
+     | None -> "N"
+     | Some f ->
+       let k = wheel_cand N0 (parse_version "0:1:-:-:-:-") f.wf_build f.wf_py f.wf_abi f.wf_plat f.wf_file in
+       let l = (match k.k_py with Some l -> l | None -> []) in
+       Printf.sprintf "S %s %s %s %d %s %s %d %s %s" (cl_hex f.wf_name) (cl_hex f.wf_version) (cl_hex k.k_extra)
+         (List.length l) (String.concat " " (List.map cl_hex l))
+         (match k.k_abi with None -> "N" | Some a -> "S " ^ cl_hex a)
+         (List.length k.k_plats) (String.concat " " (List.map cl_hex k.k_plats))
+         (match k.k_filename with None -> "N" | Some a -> cl_hex a))
+  | "UF" -> let c = next_cfg st in let v = parse_version (next st) in let fn = next_str st in
+    let he = next_bool st in let ap = next_bool st in
+    (match wheel_cand_of_filename N0 v fn with
+     | None -> "NOT-A-CANDIDATE"
+     | Some k -> (match check_usability c k he ap with None -> "OK" | Some r -> print_reason r))
+  | "SF" -> let c = next_cfg st in
+    let items = next_list st (fun st ->
+        let id = n_of_int (next_int st) in let kind = next st in let v = parse_version (next st) in
+        let fn = next_str st in (id, kind, v, fn)) in
+    let cands = List.map (fun (id, kind, v, fn) ->
+        if kind = "D" then Some (sdist_cand id v fn) else wheel_cand_of_filename id v fn) items in
+    if List.exists (fun o -> o = None) cands then "NOT-A-CANDIDATE"
+    else
+      (match sort_candidates c (List.map (function Some k -> k | None -> failwith "none") cands) with
+       | Err -> "ERR IndexError"
+       | Ok l -> "OK " ^ String.concat " " (List.map (fun k -> string_of_int (int_of_n k.k_id)) l))
   | "C" -> let r = next_raw st in print_cfg (cfg_of r)
   | "L" -> let sym = next_opt st next_str in
     (match glibc_version_of sym with
